@@ -101,6 +101,24 @@ def roundTrip : RT → RTOut → RTOut
 def enterOrder (t : RT) : List Layer := (trace t).filterMap (fun e => match e with | .enter l => some l | _ => none)
 def exitOrder (t : RT) : List Layer := (trace t).filterMap (fun e => match e with | .exit l => some l | _ => none)
 
+/-! ## several steps on ONE RestConf value
+
+`conf.With(opt)` and the generated setters write the same fields as the options; `BuildMiddleware()`
+reads the fields and writes nothing; a value copy (`c2 := *conf`) holds the same field values. -/
+
+inductive COp where
+  | apply (o : Opt)      -- `conf.With(o)` or the matching setter (`SetEnableLogging(b)`, `SetTimeout(d)`, …)
+  | build                -- `conf.BuildMiddleware()` followed by one round trip through the result
+  | copy                 -- go on with a value copy of the RestConf
+  deriving Repr, DecidableEq, Inhabited
+
+/-- the traces of the round trips through every chain built along a history -/
+def runConf : RestConf → List COp → List (List Event)
+  | _, [] => []
+  | c, .apply o :: r => runConf (o.apply c) r
+  | c, .build :: r => trace (buildMiddleware c) :: runConf c r
+  | c, .copy :: r => runConf c r
+
 /-! ## the generated init() -/
 
 /-- int64 wrap-around of Go's `*` on time.Duration -/
